@@ -167,7 +167,7 @@ def campaign(c):
             rq = (reqs[:12] + [('d', 0, 0), ('d', 0, 0)] + reqs[:3])
             for j in range(len(rq) - 1, 0, -1):
                 k = r2.below(j + 1); rq[j], rq[k] = rq[k], rq[j]
-            check(c, min(n, 3000), [q for q in rq if q[0] != 'f' or 8 * q[1] <= min(n, 3000)], False, opts, 'mixed-raw', raws=[r2.chance(1, 2) for _ in rq])
+            check(c, min(n, 3000), [q for q in rq if q[0] == 'd' or 8 * q[1] <= min(n, 3000)], False, opts, 'mixed-raw', raws=[r2.chance(1, 2) for _ in rq])
     c.assumptions += ['fragments are decoded from the real pcap by Spec.decodeFrag; IP header checksums are C02\'s business']
 
 
